@@ -186,6 +186,18 @@ ExtraCases == <<
        Set("r1", IfSet("q", WVoid, V("b3"), I(1), I(0))),
        Set("b4", IfSet("n", WInt, H(2), Block(<<Asg("+=", V("c"), V("n")), Unit>>), Block(<<I(7)>>))),
        Set("r2", IfSet("q", WInt, V("b4"), I(0), Deref(V("c")))), TupE(<<V("r1"), V("r2")>>)>>, T2V(1, 5)),
+  \* a catch-all arm ends the search wherever it stands: arms written below it are never tried
+  XC(<<FnDecl("m", <<P("v", WInt)>>, WInt, <<Ret(Match(V("v"), <<ArmOther(I(0)), ArmVal(<<I(1)>>, I(10))>>))>>),
+       TupE(<<CallE(V("m"), <<H(1)>>), CallE(V("m"), <<H(2)>>)>>)>>, T2V(0, 0)),
+  XC(<<FnDecl("m", <<P("v", WInt)>>, WInt, <<Ret(Match(V("v"), <<ArmVal(<<I(0)>>, I(5)), ArmOther(I(7)), ArmTy("n", WInt, I(9))>>))>>),
+       TupE(<<CallE(V("m"), <<H(0)>>), CallE(V("m"), <<H(3)>>)>>)>>, T2V(5, 7)),
+  XC(<<Set("r1", Match(I(1), <<ArmOther(I(0)), ArmVal(<<I(1)>>, I(10))>>)),
+       Set("r2", Match(H(1), <<ArmVal(<<I(2)>>, I(5)), ArmOther(I(0)), ArmVal(<<I(1)>>, I(10)), ArmTy("n", WInt, I(11))>>)), TupE(<<V("r1"), V("r2")>>)>>, T2V(0, 0)),
+  XC(<<Set("seen", MutE(WInt, I(0))), Set("brk", MutE(WInt, I(0))),
+       For("v", IterE(Hide(WArr(WMulti(<<WInt, WStr>>)), ArrE(<<I(0), I(4), S(<<115>>), I(5)>>))),
+           Block(<<Match(V("v"), <<ArmVal(<<I(0)>>, Block(<<ContinueS>>)), ArmOther(Block(<<Asg("+=", V("seen"), I(1))>>)),
+                                   ArmTy("s", WStr, Block(<<Asg("+=", V("brk"), I(1)), Break>>))>>)>>)),
+       TupE(<<Deref(V("seen")), Deref(V("brk"))>>)>>, T2V(3, 0)),
   \* guards
   XC(<<Set("x", H(0)), Set("r1", Guard("x", 3)), Set("x", H(2)), Set("r2", Guard("x", 3)), TupE(<<V("r1"), V("r2")>>)>>, T2V(3, 5)),
   XC(<<Set("x", H(0)), Set("k", MutE(WInt, I(7))),
@@ -224,6 +236,25 @@ NegForm(ti, i, how) ==
   Bindings \o <<FnDecl("tn", <<P("v", ValTy[i])>>, WInt, <<test, Ret(I(2))>>), CallE(V("tn"), <<V("v" \o ToString(i))>>)>>
 NegSeq == SetToSeq({<<ti, i, how>> : ti \in 1..Len(UnionTests), i \in 1..NV, how \in {"ret", "plus", "ifset"}})
 
+\* An accepted match always has an arm for the scrutinee: a VALUE arm covers no member of the scrutinee's type, whatever
+\* the static type of its candidate (a union that includes that member, or any).  One member of the scrutinee's type is
+\* left to a value arm only; such a match must be refused.  If an implementation accepts it, the run - scrutinee of the
+\* uncovered member, candidate another value - is judged by its events and must not panic.
+CovMembers == <<WVoid, WInt, WStr, WArr(WInt)>>
+CovVals == <<Unit, I(3), S(<<97>>), ArrE(<<I(1)>>)>>
+CovU == WMulti(CovMembers)
+NegCover(m, wide, where) ==
+  LET others == SelectSeq(<<1, 2, 3, 4>>, LAMBDA j : j # m)
+      kty == IF wide THEN WAny ELSE CovU
+      arms == <<ArmVal(<<V("k")>>, I(1))>> \o [j \in 1..3 |-> ArmTy("y", CovMembers[others[j]], I(10 + j))]
+      arms2 == [j \in 1..3 |-> ArmTy("y", CovMembers[others[j]], I(10 + j))] \o <<ArmVal(<<I(7), V("k")>>, I(1))>>
+      o == others[1] IN
+  IF where = "fn"
+  THEN <<FnDecl("pick", <<P("v", CovU), P("k", kty)>>, WInt, <<Ret(Match(V("v"), arms))>>),
+         CallE(V("pick"), <<Hide(CovU, CovVals[m]), Hide(kty, CovVals[o])>>)>>
+  ELSE <<Set("v", Hide(CovU, CovVals[m])), Set("k", Hide(kty, CovVals[o])), Set("r", Match(V("v"), arms2)), V("r")>>
+NegCoverSeq == SetToSeq({<<m, w, wh>> : m \in 1..4, w \in BOOLEAN, wh \in {"fn", "top"}})
+
 Init == row = 0
 Next == \/ row = 0 /\ row' \in {-c : c \in 1..Chunks}
         \/ row < 0 /\ row' \in {i \in 1..N : i % Chunks = (-row) % Chunks}
@@ -239,6 +270,9 @@ Emit ==
   /\ ndJsonSerialize(IOEnv.VERIF_OUT \o "/c12t_neg_cases.ndjson",
         [i \in 1..Len(NegSeq) |-> [id |-> "c12t-neg-" \o ToString(i), suite |-> "c12t", negative |-> TRUE,
                                    prog |-> NegForm(NegSeq[i][1], NegSeq[i][2], NegSeq[i][3]),
+                                   exp |-> [status |-> "rejected", v |-> VoidV, log |-> <<>>]]]
+        \o [i \in 1..Len(NegCoverSeq) |-> [id |-> "c12t-negcover-" \o ToString(i), suite |-> "c12t", negative |-> TRUE,
+                                   prog |-> NegCover(NegCoverSeq[i][1], NegCoverSeq[i][2], NegCoverSeq[i][3]),
                                    exp |-> [status |-> "rejected", v |-> VoidV, log |-> <<>>]]])
   /\ PrintT(<<"CASES", N, NV>>)
 =============================================================================
